@@ -6,6 +6,7 @@ require (
 	github.com/orda-io/orda/client v0.0.0
 	github.com/orda-io/orda/server v0.0.0
 	github.com/sirupsen/logrus v1.9.0
+	github.com/wI2L/jsondiff v0.2.0
 	go.mongodb.org/mongo-driver v1.10.1
 	google.golang.org/protobuf v1.28.1
 )
@@ -36,7 +37,6 @@ require (
 	github.com/tidwall/match v1.1.1 // indirect
 	github.com/tidwall/pretty v1.2.0 // indirect
 	github.com/viney-shih/go-lock v1.1.2 // indirect
-	github.com/wI2L/jsondiff v0.2.0 // indirect
 	github.com/xdg-go/pbkdf2 v1.0.0 // indirect
 	github.com/xdg-go/scram v1.1.1 // indirect
 	github.com/xdg-go/stringprep v1.0.3 // indirect
